@@ -371,6 +371,108 @@ def real_module(source):
     return importlib.import_module(rel[:-3].replace("/", "."))
 
 
+# ------------------------------------------------------------------ property oracles on the REAL code
+# (independent of the model and of the translation: they are what turns a broken proof obligation into a failing input)
+def _group_roundtrip_to_index(obj, args):
+    lit = args[0]
+    try:
+        t = obj.to_index(lit)
+    except ValueError:
+        return None if abs(lit) not in obj.ids else {"to_index_refuses_own_literal": lit}
+    if abs(lit) not in obj.ids:
+        return {"to_index_accepts_foreign_literal": lit, "index": repr(t)}
+    back = obj._unsafe_index_to_lit(tuple(t))
+    if back != abs(lit):
+        return {"lit": lit, "to_index": repr(t), "index_to_lit_of_it": back}
+    if tuple(t) not in [tuple(x) for x in obj.indices()]:
+        return {"lit": lit, "to_index": repr(t), "not_in_indices": True}
+    return None
+
+
+def _group_roundtrip_index(obj, args):
+    idx = tuple(args[0])
+    legal = [tuple(x) for x in obj.indices()]
+    if idx not in legal:
+        return None
+    v = obj._unsafe_index_to_lit(idx)
+    if v != obj.ids[legal.index(idx)]:
+        return {"index": idx, "id": v, "expected_id": obj.ids[legal.index(idx)]}
+    if tuple(obj.to_index(v)) != idx or tuple(obj.to_index(-v)) != idx:
+        return {"index": idx, "id": v, "to_index": repr(obj.to_index(v))}
+    return None
+
+
+def _forbid_spec(obj, args):
+    i, j = args
+    bits = obj.bits()
+    if not (1 <= i <= obj.domain_size and 0 <= j < 2 ** bits) or bits > 10:
+        return None
+    clause = obj.forbid(i, j)
+    ids = {b: obj(i, b) for b in range(bits)}
+    for value in range(2 ** bits):
+        true = {ids[b] for b in range(bits) if (value >> b) & 1}
+        holds = any((l > 0 and l in true) or (l < 0 and -l not in true) for l in clause)
+        if holds == (value == j):
+            return {"i": i, "j": j, "clause": clause, "bits_value": value, "clause_holds": holds}
+    return None
+
+
+def _vdw_spec(obj, args):
+    N, k = args
+    if k < 1 or N > 40:
+        return None
+    mod = importlib.import_module("cnfgen.families.ramsey")
+    got = [tuple(a) for a in mod._vdw_ap_generator(N, k)]
+    want = set()
+    for i in range(1, N + 1):
+        if k == 1:
+            want.add((i,))
+            continue
+        for d in range(1, N + 1):
+            if i + (k - 1) * d <= N:
+                want.add(tuple(i + d * t for t in range(k)))
+    if len(got) != len(set(got)) or set(got) != want:
+        return {"N": N, "k": k, "yielded": got[:8], "missing": sorted(want - set(got))[:4], "extra": sorted(set(got) - want)[:4]}
+    return None
+
+
+def _normalize_spec(obj, args):
+    import copy
+    import itertools
+    con = args[0]
+    op = con[-2]
+    if op not in ("<=", ">=", "<", ">", "==", "!="):
+        return None
+    mod = importlib.import_module("cnfgen.formula.baseopb")
+    out = mod.normalize_opb(copy.deepcopy(con))
+    vs = sorted({abs(l) for _, l in con[:-2]})
+    if len(vs) > 6 or 0 in vs:
+        return None
+
+    def holds(c, true):
+        sm = sum(co for co, l in c[:-2] if (l > 0 and l in true) or (l < 0 and -l not in true))
+        return {"<=": sm <= c[-1], ">=": sm >= c[-1], "<": sm < c[-1], ">": sm > c[-1], "==": sm == c[-1], "!=": sm != c[-1]}[c[-2]]
+    for r in range(len(vs) + 1):
+        for true in itertools.combinations(vs, r):
+            if holds(con, set(true)) != holds(out, set(true)):
+                return {"constraint": con, "normalized": out, "assignment_true": list(true)}
+    if any(co <= 0 for co, _ in out[:-2]) or (op != "!=" and out[-2] not in (">=", "==")):
+        return {"constraint": con, "normalized": out, "not_normal_form": True}
+    return None
+
+
+ORACLES = {
+    "BlockOfVariables.to_index": _group_roundtrip_to_index,
+    "BinaryMappingVariables.to_index": _group_roundtrip_to_index,
+    "BipartiteEdgesVariables.to_index": _group_roundtrip_to_index,
+    "BlockOfVariables.index_to_lit": _group_roundtrip_index,
+    "BinaryMappingVariables.index_to_lit": _group_roundtrip_index,
+    "BipartiteEdgesVariables.index_to_lit": _group_roundtrip_index,
+    "BinaryMappingVariables.forbid": _forbid_spec,
+    "vdw_ap_generator": _vdw_spec,
+    "normalize_opb": _normalize_spec,
+}
+
 OMIT = object()
 
 
@@ -469,6 +571,19 @@ def make_call(rng, fn, manifest):
             toks.append(OUTCOME[outcome_of(o)])
         return "gen " + " ".join(str(t) for t in toks)
     info = {"fn": fn["lean"], "init": repr(init_real), "args": repr(real)}
+    oracle = None
+    if fn["lean"] in ORACLES:
+        def oracle():
+            import copy
+            obj = None
+            if cls is not None and not fn["is_init"]:
+                try:
+                    obj = getattr(mod, cls)(*strip_omitted(init_real))
+                except Exception:
+                    return None
+            a = copy.deepcopy(real[0] if fn["vararg"] else strip_omitted(real))
+            return ORACLES[fn["lean"]](obj, a)
+    run.oracle = oracle
     return run, request, info
 
 
